@@ -261,7 +261,80 @@ impl Property for C03 {
                 Tier::Quick => 14,
                 Tier::Thorough => *rng.pick(&[8usize, 14, 14, 24, 48]),
             };
-            let mut cmds = if rng.chance(25) { gen::goto_machine(rng, false) } else { gen::gen_program(rng, &sw, Flavor::Compile, max_cmds) };
+            let control_target = target & (feat::TWO_LABELS_ONE_COMMAND | feat::JUMP_BACK_INTO_PREFIX | feat::HEART_RETURN_AFTER | feat::PENDING_SOURCE) != 0;
+            let goto_pct = if control_target { 70 } else { 20 };
+            if rng.chance(if target & feat::TWO_LABELS_ONE_COMMAND != 0 { 60 } else { 1 }) {
+                // one command registers two labels before the read; afterwards a jump to the one registered second
+                let a = rng.range(2, 12) as u8;
+                let b = 2 + (a - 2 + 1 + rng.below(10) as u8) % 11;
+                let c = 2 + (b - 2 + 1 + rng.below(9) as u8) % 11;
+                if a != b && b != c && a != c {
+                    let g = |area: RArea| Cmd::new(1, 1, 3, area);
+                    let mut t: Vec<Cmd> = Vec::new();
+                    for _ in 0..rng.usize(0, 2) {
+                        t.push(Cmd::new(0, 1, rng.usize(33, 90), RArea::Nil));
+                        t.push(Cmd::new(1, 1, rng.usize(1, 2), RArea::Nil));
+                    }
+                    t.push(Cmd::new(0, 1, rng.usize(0, 2), RArea::Nil));
+                    t.push(Cmd::new(0, 1, 3, RArea::Nil));
+                    t.push(g(RArea::Leaf(c)));
+                    t.push(g(RArea::Node(1, Box::new(RArea::Leaf(a)), Box::new(RArea::Leaf(b)))));
+                    t.push(g(RArea::Node(0, Box::new(RArea::Leaf(c)), Box::new(RArea::Nil))));
+                    t.push(Cmd::new(5, 1, 0, RArea::Nil));
+                    t.push(Cmd::new(5, rng.usize(1, 2), 3, RArea::Nil));
+                    // jumps iff the character just read equals the count (U+0003): once, for the first character
+                    t.push(g(RArea::Node(1, Box::new(RArea::Leaf(*rng.pick(&[a, b, b, c]))), Box::new(RArea::Nil))));
+                    for _ in 0..rng.usize(1, 3) {
+                        t.push(Cmd::new(0, 1, rng.usize(48, 90), RArea::Nil));
+                        t.push(Cmd::new(1, 1, 1, RArea::Nil));
+                    }
+                    let mut stdin = vec![3u8];
+                    for _ in 0..rng.usize(0, 3) {
+                        stdin.push(*rng.pick(&[b'a', b'z', b'\n', 3u8, b'0']));
+                    }
+                    if terminating(&t, &stdin, sc.budget, sc.cap_bits).is_some() && speculation_safe(&t, 128) {
+                        let f = boundary_features(&t, &stdin, sc.budget);
+                        let score = (f & target).count_ones() * 4 + f.count_ones();
+                        if best.as_ref().map_or(true, |x| score > x.0) {
+                            best = Some((score, t, stdin));
+                            sc.set_knob("attempt", attempt as i64);
+                        }
+                    }
+                    continue;
+                }
+            }
+            let is_goto = rng.chance(goto_pct);
+            let mut cmds = if is_goto { gen::goto_machine(rng, false) } else { gen::gen_program(rng, &sw, Flavor::Compile, max_cmds) };
+            if is_goto && rng.chance(70) {
+                // read in the middle or near the end, then more conditional gotos over the same labels
+                let pos = rng.usize(cmds.len() / 2, cmds.len());
+                cmds.insert(pos, Cmd::new(5, 1, 0, RArea::Nil));
+                cmds.insert(pos + 1, Cmd::new(5, 1, 3, RArea::Nil));
+                let more = gen::goto_machine(rng, false);
+                let hearts: Vec<u8> = {
+                    let mut h = Vec::new();
+                    for c in cmds.iter() {
+                        c.area.hearts(&mut h);
+                    }
+                    h.retain(|x| *x != 13);
+                    h
+                };
+                let (gh, gd) = cmds.iter().find(|c| c.kind == 1 && !c.area.is_nil()).map(|c| (c.h, c.d)).unwrap_or((1, 3));
+                for (k, mut c) in more.into_iter().take(rng.usize(2, 6)).enumerate() {
+                    if c.kind == 1 && !c.area.is_nil() && !hearts.is_empty() {
+                        // same count and hearts as the first machine: jumps land in the pre-executed part
+                        c.h = gh;
+                        c.d = gd;
+                        c.area = match c.area {
+                            RArea::Leaf(13) => RArea::Leaf(13),
+                            RArea::Leaf(_) => RArea::Leaf(hearts[k % hearts.len()]),
+                            RArea::Node(t, _, _) => RArea::Node(t, Box::new(RArea::Leaf(hearts[k % hearts.len()])), Box::new(RArea::Leaf(hearts[(k + 1) % hearts.len()]))),
+                            RArea::Nil => RArea::Nil,
+                        };
+                    }
+                    cmds.insert((pos + 2 + k).min(cmds.len()), c);
+                }
+            }
             if rng.chance(25) {
                 gen::optimizer_hazard(rng, &mut cmds);
             }
@@ -288,6 +361,14 @@ impl Property for C03 {
                 cmds.insert(pos, Cmd::new(5, 1, 0, area));
                 let h = rng.usize(1, 2);
                 cmds.insert(pos + 1, Cmd::new(5, h, *rng.pick(&[3usize, 3, 1, 4]), RArea::Nil));
+            }
+            if rng.chance(50) {
+                // dump tail: what the stacks hold becomes output (text of the value through a negated copy)
+                cmds.push(Cmd::new(5, 1, 3, RArea::Nil));
+                for _ in 0..rng.usize(1, 4) {
+                    cmds.push(Cmd::new(3, 1, rng.usize(1, 2), RArea::Nil));
+                    cmds.push(Cmd::new(1, 1, rng.usize(4, 7), RArea::Nil));
+                }
             }
             let stdin = gen::gen_stdin(rng, 30);
             if terminating(&cmds, &stdin, sc.budget, sc.cap_bits).is_some() && speculation_safe(&cmds, 128) {
